@@ -290,7 +290,7 @@ class SymInt:
         if isinstance(o, int):
             return mk_int(self.term + o - _and_const(self.term, int(o)))
         if isinstance(o, SymInt):
-            raise Unsupported("| of two symbolic ints")
+            return _or_disjoint(self, o)
         return NotImplemented
 
     __ror__ = __or__
@@ -312,9 +312,13 @@ class SymInt:
     def __lshift__(self, o):
         if isinstance(o, int) and o >= 0:
             return mk_int(self.term * _pow2(o))
+        if isinstance(o, SymInt):
+            return mk_int(self.term * _sym_pow2(o))
         raise Unsupported("<< by symbolic amount")
 
     def __rlshift__(self, o):
+        if isinstance(o, int) and not isinstance(o, bool):
+            return mk_int(o * _sym_pow2(self))
         raise Unsupported("<< by symbolic amount")
 
     def __rrshift__(self, o):
@@ -413,6 +417,57 @@ def hole(value, spec=""):
     c = ctx()
     c.holes.append((value, spec))
     return "%s%d%s" % (HOLE_OPEN, len(c.holes) - 1, HOLE_CLOSE)
+
+
+# --------------------------------------------------------------------------- shifts / or with two symbolic operands
+_pn = z3.Int("pow2_n")
+POW2 = z3.RecFunction("pow2", z3.IntSort(), z3.IntSort())
+
+
+def pow2_body(t):
+    return z3.If(t <= 0, 1, 2 * POW2(t - 1))
+
+
+z3.RecAddDefinition(POW2, [_pn], pow2_body(_pn))
+
+
+def _sym_pow2(s):
+    """2**s for a symbolic shift count s: Python raises ValueError for a negative count; otherwise the recursive definition POW2"""
+    c = ctx()
+    if c.branch(s.term < 0):
+        raise ValueError("negative shift count")
+    return POW2(z3.simplify(s.term))       # argument in z3's normal form: equal linear terms give the identical application
+
+
+def _or_disjoint(a, b):
+    """a | b for two symbolic ints: only with a proof hint from the side-car (ctx.ghost["or_hint"](a_term, b_term) -> (t, k)) naming a
+    power of two M = POW2(t) and an integer k such that one operand is in [0, M) and the other is exactly k * M.  Both facts (and t >= 0)
+    are PROVED here, not assumed; then the operands occupy disjoint bit ranges under the infinite two's complement reading and
+    a | b == a + b.  Without a hint, or if a side condition does not hold on the path: Unsupported (undecided, never wrong)."""
+    c = ctx()
+    hook = c.ghost.get("or_hint")
+    if hook is None:
+        raise Unsupported("| of two symbolic ints")
+    h = hook(a.term, b.term)
+    t, k = h[0], h[1]
+    hyps = list(h[2]) if len(h) > 2 else None
+    m = POW2(t)
+    ok = z3.And(t >= 0, z3.Or(z3.And(a.term >= 0, a.term < m, b.term == k * m), z3.And(b.term >= 0, b.term < m, a.term == k * m)))
+    r = z3.unknown
+    if hyps is not None and all(any(x.eq(y) for y in c.pc) for x in hyps):
+        # the hint names the facts of the path condition that suffice: a small self-contained query
+        so = z3.Solver()
+        so.set("timeout", c.timeout_ms)
+        qs = core.hide_recursive(hyps + [ok])       # congruence is all this query needs of POW2 / the codec definitions
+        so.add(*qs[:-1])
+        so.add(z3.Not(qs[-1]))
+        r = so.check()
+        c.nchecks += 1
+    if r != z3.unsat:
+        r, _, _ = c._check(z3.Not(ok), timeout=c.timeout_ms)
+    if r != z3.unsat:
+        raise Unsupported("| of two symbolic ints: the disjoint-bit-ranges side condition of the hint is not provable on this path")
+    return mk_int(a.term + b.term)
 
 
 # --------------------------------------------------------------------------- byte sequences
